@@ -43,7 +43,7 @@ def scenario(extra=None, name="all-ops"):
     o1 = E("d/s/multi", "file", "OLD1", m=0o600); o1["meta"]["data"] = b"old-one"
     o2 = E("d/s/pipe", "file", "OLD2"); o2["meta"]["data"] = b"old-two"
     fs += [o1, o2]
-    return SC(name, fs, ["s"], "d", extra=["--block-size", "1000", "--fsync"] + (extra or []), cls="faults")
+    return SC(name, fs, ["s"], "d", extra=["--block-size", "1000", "--fsync", "--backup", "numbered"] + (extra or []), cls="faults")
 
 def scenario_one():
     e = E("s", "file", "C4-one", m=0o600, t="1400000000111111111")
